@@ -20,7 +20,14 @@ def armed : List Step → Bool
   | .chkSock :: _ => false
   | .chkClosed :: _ => false
   | .chkClosing :: _ => false
+  | .ldClosing :: _ => false
+  | .chkBoth :: _ => false
   | _ :: r => armed r
+
+/-- repaired `_check_writable`: `closing` has been read, the test of `closed` comes next -/
+def atChkBoth : List Step → Bool
+  | .chkBoth :: _ => true
+  | _ => false
 
 def atChkClosing : List Step → Bool
   | .chkClosing :: _ => true
@@ -46,6 +53,7 @@ def adisc : List Step → Bool
      | .acquire => !armed r
      | .chkSock => !armed r
      | .chkClosed => atChkClosing r
+     | .ldClosing => atChkBoth r
      | _ => true)
 
 theorem adisc_tail {st : Step} {r : List Step} (h : adisc (st :: r) = true) : adisc r = true := by
@@ -61,32 +69,30 @@ theorem adisc_suffix {r r' : List Step} (h : r' <:+ r) (d : adisc r = true) : ad
 
 theorem compile_adisc (v : Variant) (cfg : Cfg) (call : Call) : adisc (compile v cfg call) = true := by
   cases call <;>
-    simp only [compile, sendData, closeBody, writeProg] <;>
-    (repeat' split) <;> simp_all [adisc, armed, atChkClosing]
+    simp only [compile, sendData, closeBody, writeProg, checks] <;>
+    (repeat' split) <;> simp_all [adisc, armed, atChkClosing, atChkBoth]
 
 theorem alt_adisc (v : Variant) (a : Alt) : adisc (altSteps v a) = true := by
-  cases a; simp only [altSteps, closeSocketProg]; split <;> simp [adisc, armed, atChkClosing]
+  cases a; simp only [altSteps, closeSocketProg]; split <;> simp [adisc, armed, atChkClosing, atChkBoth]
 
 def cNext (st : Step) (r : List Step) : Bool :=
   match st with
-  | .acquire => !armed r
-  | .chkSock => !armed r
-  | .chkClosed => atChkClosing r
-  | .setClosed => holds r && atClear r
-  | .setClosing false => holds r
+  | .chkClosed => false          -- the repaired `_check_writable` has `ldClosing; chkBoth` instead
+  | .chkClosing => false
+  | .setClosed => atClear r
   | .write2 f => if f.op = 8 then (match r with | .setClosing true :: r2 => holds r2 | _ => false) else true
   | _ => true
 
 def cPrev (st : Step) (r : List Step) : Bool :=
   match r with
-  | .chkClosing :: _ => (match st with | .chkClosed => true | _ => false)
+  | .chkBoth :: _ => (match st with | .ldClosing => true | _ => false)
   | .setClosing false :: _ => (match st with | .setClosed => true | _ => false)
   | .setClosing true :: r2 => if holds r2 then (match st with | .write2 f => f.op = 8 | _ => false) else true
   | _ => true
 
 /-- discipline of the repaired `close()` and reply path: `closing` is set under the lock right
-    after the Close frame, `closed` is set before `closing` is cleared, both under the lock; the
-    two flag tests of `session.write` are consecutive -/
+    after the Close frame, `closed` is set right before `closing` is cleared, the state checks
+    read `closing` (into a local) right before they test `closed` -/
 def cdisc : List Step → Bool
   | [] => true
   | st :: r => cdisc r && cNext st r && cPrev st r
@@ -105,17 +111,23 @@ theorem cdisc_suffix {r r' : List Step} (h : r' <:+ r) (d : cdisc r = true) : cd
 theorem compile_cdisc (v : Variant) (cfg : Cfg) (call : Call) (hv : v.closeAtomic = true) :
     cdisc (compile v cfg call) = true := by
   cases call <;>
-    simp only [compile, sendData, closeBody, writeProg, hv] <;>
-    (repeat' split) <;> simp_all [cdisc, cNext, cPrev, holds, armed, atChkClosing, atClear]
+    simp only [compile, sendData, closeBody, writeProg, checks, hv] <;>
+    (repeat' split) <;> simp_all [cdisc, cNext, cPrev, holds, armed, atChkClosing, atChkBoth, atClear]
 
 theorem alt_cdisc (v : Variant) (a : Alt) (hv : v.closeAtomic = true) : cdisc (altSteps v a) = true := by
-  cases a; simp [altSteps, closeSocketProg, hv, cdisc, cNext, cPrev, holds, armed, atChkClosing, atClear]
+  cases a; simp [altSteps, closeSocketProg, hv, cdisc, cNext, cPrev, holds, armed, atChkClosing, atChkBoth, atClear]
 
 theorem alt_armed (v : Variant) (a : Alt) : armed (altSteps v a) = false := by
   cases a; simp only [altSteps, closeSocketProg]; split <;> simp [armed]
 
 theorem alt_atChk (v : Variant) (a : Alt) : atChkClosing (altSteps v a) = false := by
   cases a; simp only [altSteps, closeSocketProg]; split <;> simp [atChkClosing]
+
+theorem alt_atBoth (v : Variant) (a : Alt) : atChkBoth (altSteps v a) = false := by
+  cases a; simp only [altSteps, closeSocketProg]; split <;> simp [atChkBoth]
+
+theorem compile_atBoth (v : Variant) (cfg : Cfg) (call : Call) : atChkBoth (compile v cfg call) = false := by
+  cases call <;> simp only [compile, sendData, closeBody, writeProg, checks] <;> (repeat' split) <;> simp [atChkBoth]
 
 theorem alt_atClear (v : Variant) (a : Alt) (hv : v.closeAtomic = true) : atClear (altSteps v a) = false := by
   cases a; simp [altSteps, closeSocketProg, hv, atClear]
@@ -124,13 +136,13 @@ theorem alt_closerMid (v : Variant) (a : Alt) : closerMid (altSteps v a) = false
   cases a; simp only [altSteps, closeSocketProg]; split <;> simp [closerMid]
 
 theorem compile_atChk (v : Variant) (cfg : Cfg) (call : Call) : atChkClosing (compile v cfg call) = false := by
-  cases call <;> simp only [compile, sendData, closeBody, writeProg] <;> (repeat' split) <;> simp [atChkClosing]
+  cases call <;> simp only [compile, sendData, closeBody, writeProg, checks] <;> (repeat' split) <;> simp [atChkClosing]
 
 theorem compile_atClear (v : Variant) (cfg : Cfg) (call : Call) : atClear (compile v cfg call) = false := by
-  cases call <;> simp only [compile, sendData, closeBody, writeProg] <;> (repeat' split) <;> simp [atClear]
+  cases call <;> simp only [compile, sendData, closeBody, writeProg, checks] <;> (repeat' split) <;> simp [atClear]
 
 theorem compile_closerMid (v : Variant) (cfg : Cfg) (call : Call) : closerMid (compile v cfg call) = false := by
-  cases call <;> simp only [compile, sendData, closeBody, writeProg] <;> (repeat' split) <;> simp [closerMid]
+  cases call <;> simp only [compile, sendData, closeBody, writeProg, checks] <;> (repeat' split) <;> simp [closerMid]
 
 /-- outside the lock no write is armed -/
 theorem armed_out (r : List Step) (d : disc r = true) (h : holds r = false) : armed r = false := by
@@ -169,7 +181,7 @@ theorem closerMid_holds (r : List Step) (d : disc r = true) (h : closerMid r = t
     · simp only [disc, Bool.and_eq_true] at d; simpa [holds] using d.1.2.1
     · rename_i b; cases b <;> simp only [closerMid] at h <;> first | cases h | simpa [holds] using h
 
-theorem atChk_afterClose (r : List Step) (c : cdisc r = true) : atChkClosing (afterClose r) = false := by
+theorem atBoth_afterClose (r : List Step) (c : cdisc r = true) : atChkBoth (afterClose r) = false := by
   induction r with
   | nil => rfl
   | cons s r ih =>
@@ -179,7 +191,7 @@ theorem atChk_afterClose (r : List Step) (c : cdisc r = true) : atChkClosing (af
     have := c.2
     cases r with
     | nil => rfl
-    | cons a r => cases a <;> simp_all [cPrev, atChkClosing]
+    | cons a r => cases a <;> simp_all [cPrev, atChkBoth]
 
 theorem atClear_afterClose (r : List Step) (c : cdisc r = true) : atClear (afterClose r) = false := by
   induction r with
@@ -195,10 +207,10 @@ theorem atClear_afterClose (r : List Step) (c : cdisc r = true) : atClear (after
       cases a <;> simp_all [cPrev, atClear]
       rename_i b; cases b <;> simp_all [cPrev, atClear]
 
-theorem atChk_toRelease (r : List Step) : atChkClosing (toRelease r) = false := by
+theorem atBoth_toRelease (r : List Step) : atChkBoth (toRelease r) = false := by
   induction r with
   | nil => rfl
-  | cons s r ih => cases s <;> simp only [toRelease, atChkClosing] <;> exact ih
+  | cons s r ih => cases s <;> simp only [toRelease, atChkBoth] <;> exact ih
 
 theorem atClear_toRelease (r : List Step) : atClear (toRelease r) = false := by
   induction r with
@@ -223,30 +235,35 @@ theorem moves_adisc {v : Variant} {st : Step} {r r' : List Step} (m : Moves v st
   · exact adisc_suffix (toRelease_suffix r) ct
   · exact alt_adisc v a
 
-/-- a thread gets armed only by passing the `is_closing` test -/
+/-- a thread gets armed only by passing the last state check -/
 theorem moves_armed {v : Variant} {st : Step} {r r' : List Step} (m : Moves v st r r')
     (d : disc (st :: r) = true) (c : adisc (st :: r) = true) (h : armed r' = true) :
-    (st = .chkClosing ∧ r' = r) ∨ (armed (st :: r) = true ∧ isWrite st = false) := by
+    ((st = .chkClosing ∨ st = .chkBoth) ∧ r' = r) ∨ (armed (st :: r) = true ∧ isWrite st = false) := by
   rcases moves_eq m with e | ⟨_, e⟩ | ⟨_, e⟩ | ⟨a, _, e⟩ <;> subst e
   · have dt := disc_tail d
-    cases st <;> first
-      | exact Or.inr ⟨by simpa [armed] using h, rfl⟩
-      | exact Or.inl ⟨rfl, rfl⟩
-      | skip
-    -- acquire
-    · simp only [adisc, Bool.and_eq_true] at c
+    cases st with
+    | chkClosing => exact Or.inl ⟨Or.inl rfl, rfl⟩
+    | chkBoth => exact Or.inl ⟨Or.inr rfl, rfl⟩
+    | acquire =>
+      simp only [adisc, Bool.and_eq_true] at c
       have := c.2; simp [h] at this
-    -- chkSock
-    · simp only [adisc, Bool.and_eq_true] at c
+    | chkSock =>
+      simp only [adisc, Bool.and_eq_true] at c
       have := c.2; simp [h] at this
-    -- chkClosed
-    · simp only [adisc, Bool.and_eq_true] at c
+    | chkClosed =>
+      simp only [adisc, Bool.and_eq_true] at c
       have := c.2
       cases r' with
       | nil => cases h
       | cons a r2 => cases a <;> simp [atChkClosing] at this; simp [armed] at h
-    -- write1
-    · simp only [disc, Bool.and_eq_true] at d
+    | ldClosing =>
+      simp only [adisc, Bool.and_eq_true] at c
+      have := c.2
+      cases r' with
+      | nil => cases h
+      | cons a r2 => cases a <;> simp [atChkBoth] at this; simp [armed] at h
+    | write1 f =>
+      simp only [disc, Bool.and_eq_true] at d
       have h1 := d.1.2.2
       cases r' with
       | nil => cases h
@@ -255,32 +272,33 @@ theorem moves_armed {v : Variant} {st : Step} {r r' : List Step} (m : Moves v st
         simp only [disc, Bool.and_eq_true] at dt
         have := armed_noWrite r2 dt.1.2.2
         simp [armed, this] at h
-    -- write2
-    · simp only [disc, Bool.and_eq_true] at d
+    | write2 f =>
+      simp only [disc, Bool.and_eq_true] at d
       have := armed_noWrite r' d.1.2.2
       rw [this] at h; cases h
-    -- release
-    · simp only [disc, Bool.and_eq_true, Bool.not_eq_true'] at d
+    | release =>
+      simp only [disc, Bool.and_eq_true, Bool.not_eq_true'] at d
       rw [armed_out r' dt d.1.2.1] at h; cases h
+    | _ => exact Or.inr ⟨by simpa [armed] using h, rfl⟩
   · rw [armed_out _ (disc_suffix (afterClose_suffix r) (disc_tail d)) (holds_afterClose r (disc_tail d))] at h
     cases h
   · rw [armed_toRelease] at h; cases h
   · rw [alt_armed] at h; cases h
 
-theorem moves_atChk {v : Variant} {st : Step} {r r' : List Step} (m : Moves v st r r')
-    (c : cdisc (st :: r) = true) (h : atChkClosing r' = true) : st = .chkClosed ∧ r' = r := by
+theorem moves_atBoth {v : Variant} {st : Step} {r r' : List Step} (m : Moves v st r r')
+    (c : cdisc (st :: r) = true) (h : atChkBoth r' = true) : st = .ldClosing ∧ r' = r := by
   rcases moves_eq m with e | ⟨_, e⟩ | ⟨_, e⟩ | ⟨a, _, e⟩ <;> subst e
   · simp only [cdisc, Bool.and_eq_true] at c
     have := c.2
     cases r' with
     | nil => cases h
     | cons a r2 =>
-      cases a <;> simp only [atChkClosing] at h <;> try cases h
+      cases a <;> simp only [atChkBoth] at h <;> try cases h
       cases st <;> simp [cPrev] at this
       exact ⟨rfl, rfl⟩
-  · rw [atChk_afterClose r (cdisc_tail c)] at h; cases h
-  · rw [atChk_toRelease] at h; cases h
-  · rw [alt_atChk] at h; cases h
+  · rw [atBoth_afterClose r (cdisc_tail c)] at h; cases h
+  · rw [atBoth_toRelease] at h; cases h
+  · rw [alt_atBoth] at h; cases h
 
 theorem moves_atClear {v : Variant} {st : Step} {r r' : List Step} (hv : v.closeAtomic = true)
     (m : Moves v st r r') (c : cdisc (st :: r) = true) (h : atClear r' = true) : st = .setClosed ∧ r' = r := by
@@ -393,16 +411,30 @@ theorem exec_plain (v : Variant) (t : Tid) (st : Step) (r : List Step) (sh : Sha
   cases st <;>
     first
     | exact ⟨rfl, rfl, rfl⟩
-    | (simp only [exec]; split <;> exact ⟨rfl, rfl, rfl⟩)
+    | (simp only [exec]; (repeat' split) <;> exact ⟨rfl, rfl, rfl⟩)
     | exact absurd q (by simp [plainStep])
 
-theorem exec_chkClosing (v : Variant) (t : Tid) (r : List Step) (sh : Shared) (c : Cur)
-    (h : sh.closing = true) : (exec v t .chkClosing r sh c).2.rest = toRelease r := by
-  simp [exec, h]
+theorem exec_chkBoth (v : Variant) (t : Tid) (r : List Step) (sh : Shared) (c : Cur)
+    (h : sh.closed = true ∨ c.ldc = true) : (exec v t .chkBoth r sh c).2.rest = toRelease r := by
+  simp only [exec]
+  rcases h with h | h
+  · simp [h]
+  · split <;> simp [h]
 
-theorem exec_chkClosed (v : Variant) (t : Tid) (r : List Step) (sh : Shared) (c : Cur)
-    (h : sh.closed = true) : (exec v t .chkClosed r sh c).2.rest = toRelease r := by
-  simp [exec, h]
+theorem exec_ldc (v : Variant) (t : Tid) (st : Step) (r : List Step) (sh : Shared) (c : Cur) :
+    (exec v t st r sh c).2.ldc = (match st with | .ldClosing => sh.closing | _ => c.ldc) := by
+  cases st <;> simp only [exec] <;> (repeat' split) <;> rfl
+
+/-- steps that may only stand inside the lock do stand inside the lock -/
+theorem inOnly_holds {st : Step} {r : List Step} (d : disc (st :: r) = true) (h : inOnly st = true) :
+    holds (st :: r) = true := by
+  cases st with
+  | chkSock | chkClosed | chkClosing | ldClosing | chkBoth =>
+    simp only [disc, outOnly, inOnly, Bool.and_eq_true] at d
+    have := d.1.2
+    simp at this
+    simpa [holds] using this.1
+  | _ => cases h
 
 structure CInv (v : Variant) (cfg : Cfg) (s : State) : Prop where
   dc : ∀ t, cdisc (view v cfg (s.th t)) = true
@@ -411,7 +443,8 @@ structure CInv (v : Variant) (cfg : Cfg) (s : State) : Prop where
   i2 : hasClose s.sh.wire = true →
     s.sh.closing = true ∨ s.sh.closed = true ∨ ∃ u, closerMid (view v cfg (s.th u)) = true
   i3 : ∀ t, armed (view v cfg (s.th t)) = true → hasClose s.sh.wire = false
-  i4 : ∀ t, atChkClosing (view v cfg (s.th t)) = true → s.sh.closed = false
+  i4 : ∀ t c, (s.th t).current v cfg = some c → atChkBoth c.rest = true → c.ldc = false →
+    hasClose s.sh.wire = false ∨ s.sh.closed = true
   i5 : nothingAfterClose s.sh.wire = true
   i6 : ∀ t c f r, (s.th t).current v cfg = some c → c.rest = .write2 f :: r →
     ∃ pre, s.sh.wire = pre ++ [⟨t, c.idx, false, descOf f c⟩] ∧ hasClose pre = false
@@ -443,7 +476,8 @@ theorem cInv_init (v : Variant) (cfg : Cfg) (progs : Tid → List Call) (hv : v.
   · intro t h; rw [fresh_pred v cfg atClear rfl (compile_atClear v cfg) _ rfl] at h; cases h
   · intro h; cases h
   · intro t _; rfl
-  · intro t h; rw [fresh_pred v cfg atChkClosing rfl (compile_atChk v cfg) _ rfl] at h; cases h
+  · intro t c hc h
+    rw [← view_of_current hc, fresh_pred v cfg atChkBoth rfl (compile_atBoth v cfg) _ rfl] at h; cases h
   · rfl
   · intro t c f r hc hr
     have := headW2_of_rest hc hr
@@ -454,16 +488,6 @@ theorem holder_unique {v : Variant} {cfg : Cfg} {s : State} (L : LockInv v cfg s
   have h1 := (L.holder t).mp ht
   have h2 := (L.holder u).mp hu
   rw [h1] at h2; exact (Option.some.inj h2).symm
-
-theorem atChk_holds (r : List Step) (d : disc r = true) (h : atChkClosing r = true) : holds r = true := by
-  cases r with
-  | nil => cases h
-  | cons st r =>
-    cases st <;> simp only [atChkClosing] at h <;> try cases h
-    simp only [disc, outOnly, inOnly, Bool.and_eq_true] at d
-    have := d.1.2
-    simp at this
-    simpa [holds] using this.1
 
 theorem cInv_step (v : Variant) (cfg : Cfg) (s : State) (t : Tid) (hva : v.closeAtomic = true)
     (B : Base v cfg s) (I : CInv v cfg s) : CInv v cfg (step v cfg s t) := by
@@ -483,8 +507,6 @@ theorem cInv_step (v : Variant) (cfg : Cfg) (s : State) (t : Tid) (hva : v.close
       intro p u hu; rw [setTh_other _ _ _ _ _ hu]
     have vArmed : ∀ p : Shared × Cur, armed (view v cfg ((setTh s t (settle (s.th t) p.2) p.1).th t)) = armed p.2.rest := by
       intro p; rw [setTh_same]; exact view_settle_pred v cfg armed rfl (compile_armed v cfg) _ _ hh
-    have vChk : ∀ p : Shared × Cur, atChkClosing (view v cfg ((setTh s t (settle (s.th t) p.2) p.1).th t)) = atChkClosing p.2.rest := by
-      intro p; rw [setTh_same]; exact view_settle_pred v cfg atChkClosing rfl (compile_atChk v cfg) _ _ hh
     have vClear : ∀ p : Shared × Cur, atClear (view v cfg ((setTh s t (settle (s.th t) p.2) p.1).th t)) = atClear p.2.rest := by
       intro p; rw [setTh_same]; exact view_settle_pred v cfg atClear rfl (compile_atClear v cfg) _ _ hh
     have vMid : ∀ p : Shared × Cur, closerMid (view v cfg ((setTh s t (settle (s.th t) p.2) p.1).th t)) = closerMid p.2.rest := by
@@ -528,14 +550,26 @@ theorem cInv_step (v : Variant) (cfg : Cfg) (s : State) (t : Tid) (hva : v.close
       · have := compile_headW2 v cfg call3
         simp only at hr2
         rw [hr2] at this; cases this
+    -- after a step other than `ldClosing` the moving thread does not stand before the `closed` test
+    have i4_self : ∀ (p : Shared × Cur), Moves v st r p.2.rest → st ≠ .ldClosing →
+        ∀ c2, ((setTh s t (settle (s.th t) p.2) p.1).th t).current v cfg = some c2 → atChkBoth c2.rest = true → False := by
+      intro p mp hne c2 hc2 hat
+      rcases current_after hh hc2 with ⟨hu, _⟩ | ⟨_, _, rfl⟩ | ⟨_, _, call3, rfl⟩
+      · exact hu rfl
+      · exact hne (moves_atBoth mp cd hat).1
+      · rw [compile_atBoth] at hat; cases hat
+    -- another thread standing there keeps its call in progress
+    have i4_other : ∀ (p : Shared × Cur) u c2, u ≠ t →
+        ((setTh s t (settle (s.th t) p.2) p.1).th u).current v cfg = some c2 → (s.th u).current v cfg = some c2 := by
+      intro p u c2 hu hc2
+      rw [setTh_other _ _ _ _ _ hu] at hc2; exact hc2
     cases hk : plainStep st with
     | true =>
       obtain ⟨q1, q2, q3⟩ := exec_plain v t st r s.sh c hk
-      have hchk1 : st = .chkClosing → s.sh.closing = true → (exec v t st r s.sh c).2.rest = toRelease r := by
-        intro h1 h2; subst h1; exact exec_chkClosing v t r s.sh c h2
-      have hchk2 : st = .chkClosed → s.sh.closed = true → (exec v t st r s.sh c).2.rest = toRelease r := by
-        intro h1 h2; subst h1; exact exec_chkClosed v t r s.sh c h2
-      generalize exec v t st r s.sh c = p at m hi q1 q2 q3 hchk1 hchk2
+      have hchk : st = .chkBoth → (s.sh.closed = true ∨ c.ldc = true) → (exec v t st r s.sh c).2.rest = toRelease r := by
+        intro h1 h2; subst h1; exact exec_chkBoth v t r s.sh c h2
+      have hldc := exec_ldc v t st r s.sh c
+      generalize exec v t st r s.sh c = p at m hi q1 q2 q3 hchk hldc
       have hnotmid : closerMid (st :: r) = false := by
         cases st <;> first | rfl | exact absurd hk (by simp [plainStep])
       refine ⟨hdc p m, had p m, ?_, ?_, ?_, ?_, ?_, ?_⟩
@@ -562,38 +596,49 @@ theorem cInv_step (v : Variant) (cfg : Cfg) (s : State) (t : Tid) (hva : v.close
         · subst hut
           rw [vArmed] at hu
           rcases moves_armed m d ad hu with ⟨h1, h2⟩ | ⟨h1, _⟩
-          · -- the `is_closing` test has just been passed
+          · -- the last state check has just been passed
+            rcases h1 with h1 | h1
+            · subst h1
+              simp only [cdisc, cNext, Bool.and_eq_true] at cd
+              have := cd.1.2; cases this
+            · subst h1
+              have hclosed : s.sh.closed = false := by
+                cases hx : s.sh.closed with
+                | false => rfl
+                | true => rw [hchk rfl (Or.inl hx), armed_toRelease] at hu; cases hu
+              have hld : c.ldc = false := by
+                cases hx : c.ldc with
+                | false => rfl
+                | true => rw [hchk rfl (Or.inr hx), armed_toRelease] at hu; cases hu
+              rcases I.i4 u c hc (by rw [hr]; rfl) hld with h | h
+              · exact h
+              · rw [hclosed] at h; cases h
+          · exact I.i3 u (by rw [hv]; exact h1)
+        · rw [vo p u hut] at hu; exact I.i3 u hu
+      · intro u c2 hc2 hat hld
+        rw [setTh_sh, q2, q3]
+        by_cases hut : u = t
+        · subst hut
+          rcases current_after hh hc2 with ⟨hu, _⟩ | ⟨_, _, rfl⟩ | ⟨_, _, call3, rfl⟩
+          · exact absurd rfl hu
+          · -- `closing` has just been read as false into the local
+            obtain ⟨h1, _⟩ := moves_atBoth m cd hat
             subst h1
-            have hl : holds (Step.chkClosing :: r) = true := atChk_holds _ d rfl
-            have hclosing : s.sh.closing = false := by
-              cases hx : s.sh.closing with
-              | false => rfl
-              | true =>
-                rw [hchk1 rfl hx, armed_toRelease] at hu; cases hu
-            have hclosed : s.sh.closed = false := I.i4 u (by rw [hv]; rfl)
+            have hl : holds (Step.ldClosing :: r) = true := inOnly_holds d rfl
+            simp only at hldc
+            rw [hldc] at hld
             cases hcl : hasClose s.sh.wire with
-            | false => rfl
+            | false => exact Or.inl rfl
             | true =>
               rcases I.i2 hcl with h | h | ⟨w, hw⟩
-              · rw [hclosing] at h; cases h
-              · rw [hclosed] at h; cases h
+              · rw [hld] at h; cases h
+              · exact Or.inr h
               · have hwh := closerMid_holds _ (B.L.disc w) hw
                 have : w = u := holder_unique B.L (hv ▸ hl) hwh
                 subst this
                 rw [hv] at hw; cases hw
-          · exact I.i3 u (by rw [hv]; exact h1)
-        · rw [vo p u hut] at hu; exact I.i3 u hu
-      · intro u hu
-        rw [setTh_sh, q2]
-        by_cases hut : u = t
-        · subst hut
-          rw [vChk] at hu
-          obtain ⟨h1, h2⟩ := moves_atChk m cd hu
-          cases hx : s.sh.closed with
-          | false => rfl
-          | true =>
-            rw [hchk2 h1 hx, atChk_toRelease] at hu; cases hu
-        · rw [vo p u hut] at hu; exact I.i4 u hu
+          · rw [compile_atBoth] at hat; cases hat
+        · exact I.i4 u c2 (i4_other p u c2 hut hc2) hat hld
       · rw [setTh_sh, q3]; exact I.i5
       · intro u c2 f r2 hc2 hr2
         rw [setTh_sh]
@@ -626,24 +671,19 @@ theorem cInv_step (v : Variant) (cfg : Cfg) (s : State) (t : Tid) (hva : v.close
           · subst hut
             rw [vArmed] at hu
             rcases moves_armed m d ad hu with ⟨h1, _⟩ | ⟨h1, _⟩
-            · cases h1
+            · rcases h1 with h1 | h1 <;> cases h1
             · exact I.i3 u (by rw [hv]; exact h1)
           · rw [vo p u hut] at hu; exact I.i3 u hu
-        · intro u hu
-          rw [setTh_sh, hcl]
+        · intro u c2 hc2 hat hld
+          rw [setTh_sh, hcl, hw]
           by_cases hut : u = t
-          · subst hut
-            rw [vChk] at hu
-            obtain ⟨h1, _⟩ := moves_atChk m cd hu
-            cases h1
-          · rw [vo p u hut] at hu; exact I.i4 u hu
+          · subst hut; exact (i4_self p m (by intro h; cases h) c2 hc2 hat).elim
+          · exact I.i4 u c2 (i4_other p u c2 hut hc2) hat hld
         · rw [setTh_sh, hw]; exact I.i5
         · intro u c2 f r2 hc2 hr2
           rw [setTh_sh]
           exact i6_other p hw (by intro f h; cases h) m u c2 f r2 hc2 hr2
       | setClosed =>
-        have hl : holds (Step.setClosed :: r) = true := by
-          simp only [cdisc, cNext, Bool.and_eq_true] at cd; simpa [holds] using cd.1.2.1
         have hp2 : (exec v t Step.setClosed r s.sh c).2.rest = r := rfl
         have hw : (exec v t Step.setClosed r s.sh c).1.wire = s.sh.wire := rfl
         have hcl : (exec v t Step.setClosed r s.sh c).1.closed = true := rfl
@@ -657,18 +697,11 @@ theorem cInv_step (v : Variant) (cfg : Cfg) (s : State) (t : Tid) (hva : v.close
           · subst hut
             rw [vArmed] at hu
             rcases moves_armed m d ad hu with ⟨h1, _⟩ | ⟨h1, _⟩
-            · cases h1
+            · rcases h1 with h1 | h1 <;> cases h1
             · exact I.i3 u (by rw [hv]; exact h1)
           · rw [vo p u hut] at hu; exact I.i3 u hu
-        · intro u hu
-          by_cases hut : u = t
-          · subst hut
-            rw [vChk] at hu
-            obtain ⟨h1, _⟩ := moves_atChk m cd hu
-            cases h1
-          · rw [vo p u hut] at hu
-            have := atChk_holds _ (B.L.disc u) hu
-            rw [lone hl u hut] at this; cases this
+        · intro u c2 hc2 hat hld
+          rw [setTh_sh]; exact Or.inr hcl
         · rw [setTh_sh, hw]; exact I.i5
         · intro u c2 f r2 hc2 hr2
           rw [setTh_sh]
@@ -714,11 +747,19 @@ theorem cInv_step (v : Variant) (cfg : Cfg) (s : State) (t : Tid) (hva : v.close
           · rw [vo p u hut] at hu
             have := armed_holds _ (B.L.disc u) hu
             rw [others_out u hut] at this; cases this
-        · intro u hu
-          rw [setTh_sh, hcl]
+        · intro u c2 hc2 hat hld
           by_cases hut : u = t
-          · subst hut; rw [vChk, hp2] at hu; cases hu
-          · rw [vo p u hut] at hu; exact I.i4 u hu
+          · subst hut; exact (i4_self p m (by intro h; cases h) c2 hc2 hat).elim
+          · have hcu := i4_other p u c2 hut hc2
+            have hd := B.L.disc u
+            rw [view_of_current hcu] at hd
+            cases hcr : c2.rest with
+            | nil => rw [hcr] at hat; cases hat
+            | cons a r9 =>
+              rw [hcr] at hat hd
+              cases a <;> simp only [atChkBoth] at hat <;> try cases hat
+              have := inOnly_holds hd rfl
+              rw [← hcr, ← view_of_current hcu, others_out u hut] at this; cases this
         · rw [setTh_sh, hw]; exact nac_one _ _ hnoclose
         · intro u c2 g r3 hc2 hr3
           rw [setTh_sh]
@@ -779,14 +820,19 @@ theorem cInv_step (v : Variant) (cfg : Cfg) (s : State) (t : Tid) (hva : v.close
           · rw [vo p u hut] at hu
             have := armed_holds _ (B.L.disc u) hu
             rw [others_out u hut] at this; cases this
-        · intro u hu
-          rw [setTh_sh, hcl]
+        · intro u c2 hc2 hat hld
           by_cases hut : u = t
-          · subst hut
-            rw [vChk] at hu
-            obtain ⟨h1, _⟩ := moves_atChk m cd hu
-            cases h1
-          · rw [vo p u hut] at hu; exact I.i4 u hu
+          · subst hut; exact (i4_self p m (by intro h; cases h) c2 hc2 hat).elim
+          · have hcu := i4_other p u c2 hut hc2
+            have hd := B.L.disc u
+            rw [view_of_current hcu] at hd
+            cases hcr : c2.rest with
+            | nil => rw [hcr] at hat; cases hat
+            | cons a r9 =>
+              rw [hcr] at hat hd
+              cases a <;> simp only [atChkBoth] at hat <;> try cases hat
+              have := inOnly_holds hd rfl
+              rw [← hcr, ← view_of_current hcu, others_out u hut] at this; cases this
         · rw [setTh_sh, hwire']
           exact nac_two pre _ _ hprec rfl rfl rfl rfl rfl
         · intro u c2 g r3 hc2 hr3
